@@ -36,6 +36,8 @@ WHAT TO PRODUCE:
 
 Before finishing, verify yourself: (a) tests pass with the change, (b) demo fails with the change, (c) demo passes without it (run it 3 times: it must be deterministic), (d) patch.diff applies cleanly to the clean tree (git apply --check after git apply -R). Leave the change applied in the worktree at the end.
 
+Do not hard-code the worktree path in demo.py (it must run against any checkout through PYTHONPATH).
+
 Reply with a brief summary: files changed, what is needed to manifest, and the outputs of (a)-(c).
 '''
 os.makedirs(root + '/out', exist_ok=True)
@@ -53,6 +55,15 @@ for pid in sorted(props):
     for m in sorted(glob.glob('/verif/seeded/%s-s*/meta.json' % pid)):
         j = json.load(open(m))
         prev.append('  - "%s (needs: %s)"' % (j['change'], j['needs_to_manifest']))
+    used = {}
+    for pd in sorted(glob.glob('/verif/seeded/%s-s*/patch.diff' % pid)):
+        for line in open(pd):
+            if line.startswith('+++ b/'):
+                used[line[6:].strip()] = used.get(line[6:].strip(), 0) + 1
+    if used:
+        prev.append('  Files the previous attempts changed (times): ' + ', '.join('%s (%d)' % kv for kv in sorted(used.items())) +
+                    '. Prefer a relevant file or function that has been used least or not at all, if one exists '
+                    '(the "Relevant files" list above is not exhaustive: helpers they call count too).')
     t = base.replace('__WT__', wt).replace('__OUT__', out).replace('__PROP__', prop).replace('__PREV__', '\n'.join(prev))
     open(out + '/prompt.txt', 'w').write(t)
 print('prepared', root)
